@@ -60,6 +60,22 @@ PROPS = {
         'design_ref': 'DESIGN.md 5 C04',
         'explanation': 'BIP143 contract',
     },
+    'C15': {
+        'modules': ['contracts.c15'],
+        'level': 'proof',
+        'trusted_base': COMMON_TB,
+        'assumptions': ['SHA-256 uninterpreted (same symbol in code and spec)',
+                        'C01/C02 contracts (proved there) used at call sites',
+                        'calc_weight: at least one input and one output (documented precondition of the function)'],
+        'level_text': 'build_merkle_tree_from_txids proved against the recursive root specification with nested loop '
+                      'invariants and a termination measure, for every number of txids; txid/wtxid trees, the '
+                      'zeroed coinbase entry, NoWitnessData iff no witness, calc_merkle_root, the CBlock constructor '
+                      '(zero root filled, different root refused with CheckBlockError), calc_weight and GetWeight '
+                      '= 3*stripped + full size.',
+        'level_note': 'trusted: pyvc, z3/cvc5, hash functions uninterpreted, C01/C02 contracts, specs/merkle.py',
+        'design_ref': 'DESIGN.md 5 C15',
+        'explanation': 'merkle contracts',
+    },
     'C17': {
         'modules': ['contracts.c17'],
         'level': 'proof',
